@@ -553,6 +553,10 @@ def _stopwait(d, run):
                   "marker / look at flag / block: no orphan, every waiter returns, every interleaving)")
     if r["violated"]:
         run.violation("specification StopWait.tla (the protocol of the D6 repair) violates %s" % r["violated"], replay_lines=[r["out"][-6000:]])
+    a = d.tlc_mc("StopWait.tla", "StopWait_closefirst.cfg", run.workdir, workers=2, timeout=600)
+    run.add_mc(a, "StopWait_closefirst (AsyncCache: close the channel, then drop what is buffered)")
+    if a["violated"]:
+        run.violation("specification StopWait.tla (AsyncCache's order: close, then sweep) violates %s" % a["violated"], replay_lines=[a["out"][-6000:]])
     for v in ("noflag", "flaglate", "nosweep"):
         w = d.tlc_mc("StopWait.tla", "StopWait_%s.cfg" % v, run.workdir, workers=2, timeout=600)
         if not w["violated"]:
